@@ -203,6 +203,7 @@ def run(ctx: vlib.Ctx):
                         "namedtuple_as_dict and generic NamedTuples/TypedDicts are oracle only"]
 
     k7_part(ctx)
+    ctx.coqchk(["VerifProps.C03_unpack", "VerifProps.C03_tuple_kernel"])
     cases, bad, log = tycorr.run(ctx, "c03_ty", ctx.budget(60, 400), 2, depth=3, foreign=4)
     hits = tyoracle.report_corr(ctx, "TyModel.uk/ref_dec vs BasicDecoder.decode", cases, bad, log, want="dec")
 
